@@ -575,10 +575,8 @@ class RecordContextMatcher:
 
         # Special case for __contains__, where we need to first unwrap all values matching the Type query
         if comptype in (ast.In, ast.NotIn) and isinstance(left, TypeMatcherInstance):
-            for v in left._values():
-                if comp(v, right):
-                    return True
-            return False
+            # like the other operators this also looks at the fields of records nested in the record
+            return left._op(comp, right)
         return comp(left, right)
 
     def _eval(self, node):
